@@ -115,12 +115,37 @@ class LC:
         return astx.path(e) in self.resolvers
 
     def table(self, e, at, depth=0):
-        """Set of (kind, mode) the expression can denote (kind inputs/outputs, mode case/dict); None = unknown."""
-        if depth > 5:
+        """Set of (kind, mode, view) the expression can denote; None = unknown.
+
+        kind inputs/outputs, mode case/dict, view 'keys' (the table itself / .keys()) or
+        'absolute_names' (PromAbsDict.absolute_names()).
+        """
+        if depth > 6:
             return None
         if isinstance(e, ast.Attribute) and isinstance(e.value, ast.Name) and e.value.id == self.case \
                 and e.attr in ('inputs', 'outputs'):
-            return {(e.attr, 'case')}
+            return {(e.attr, 'case', 'keys')}
+        if isinstance(e, ast.IfExp):
+            a, b = self.table(e.body, at, depth + 1), self.table(e.orelse, at, depth + 1)
+            if a is None or b is None:
+                return None
+            p = self.dict_polarity(e.test)
+            if p is not None:
+                a = {t for t in a if (t[1] == 'dict') == p}
+                b = {t for t in b if (t[1] == 'dict') != p}
+            return a | b
+        if isinstance(e, ast.Call) and not e.args and not e.keywords and \
+                astx.callee_attr(e) in ('absolute_names', 'keys') and astx.receiver(e) is not None:
+            r = self.table(astx.receiver(e), at, depth + 1)
+            if not r or any(v != 'keys' for _, _, v in r):
+                return None
+            if astx.callee_attr(e) == 'keys':
+                return r
+            # absolute_names() exists on PromAbsDict only: this expression denotes Case-mode tables
+            return {(k, m, 'absolute_names') for k, m, _ in r if m == 'case'} or None
+        if isinstance(e, ast.Call) and astx.call_name(e) in ('list', 'tuple', 'sorted') and len(e.args) == 1 \
+                and not e.keywords:
+            return self.table(e.args[0], at, depth + 1)
         if isinstance(e, ast.Constant) and e.value is None:
             return set()
         if isinstance(e, ast.DictComp) and len(e.generators) == 1:
@@ -129,7 +154,7 @@ class LC:
                 r = astx.receiver(it)
                 if isinstance(r, ast.Subscript) and astx.path(r.value) == self.case and \
                         astx.const_str(r.slice) in ('inputs', 'outputs'):
-                    return {(astx.const_str(r.slice), 'dict')}
+                    return {(astx.const_str(r.slice), 'dict', 'keys')}
             return None
         if isinstance(e, ast.Name):
             ds = self.rd.defs(at, e.id)
@@ -148,6 +173,16 @@ class LC:
             return out
         return None
 
+    def mode_at(self, at):
+        """True/False if CFG node `at` lies lexically under a test that fixes dict/Case mode, else None."""
+        st = at.ast
+        for a in astx.ancestors(st):
+            if isinstance(a, (ast.If, ast.IfExp)):
+                p = self.dict_polarity(a.test)
+                if p is not None and isinstance(a, ast.If):
+                    return p if astx.in_body(st, a, 'body') else (not p)
+        return None
+
     def _table_loops(self):
         fn, g = self.fn, self.g
         found = []
@@ -157,22 +192,21 @@ class LC:
             hs = g.nodes_of(st)
             if len(hs) != 1:
                 continue
-            it, view = st.iter, 'keys'
-            if isinstance(it, ast.Call) and not it.args and not it.keywords and \
-                    astx.callee_attr(it) in ('absolute_names', 'keys'):
-                view = astx.callee_attr(it) if astx.callee_attr(it) == 'absolute_names' else 'keys'
-                it = astx.receiver(it)
-            tk = self.table(it, hs[0])
+            tk = self.table(st.iter, hs[0])
             if not tk:
                 continue
-            kinds = {k for k, _ in tk}
+            kinds = {k for k, _, _ in tk}
             if len(kinds) != 1:
                 raise AnalysisError(f'{fn.ident}: loop at line {st.lineno} iterates a mix of tables {sorted(tk)}')
             if any(isinstance(a, ast.For) and any(a is l.stmt for l in found) for a in astx.ancestors(st)):
                 continue
             if not isinstance(st.target, ast.Name):
                 raise AnalysisError(f'{fn.ident}: table loop at line {st.lineno} does not bind a single name')
-            found.append(Loop(st, hs[0], kinds.pop(), {m for _, m in tk}, view, st.target.id))
+            views = {v for _, m, v in tk if m == 'case'}
+            if len(views) > 1:
+                raise AnalysisError(f'{fn.ident}: loop at line {st.lineno} iterates the Case table in several views')
+            found.append(Loop(st, hs[0], kinds.pop(), {m for _, m, _ in tk}, views.pop() if views else 'keys',
+                              st.target.id))
         by = {}
         for l in found:
             by.setdefault(l.kind, []).append(l)
@@ -248,7 +282,7 @@ def _table_truth(lc, test, kind, at):
 
     def is_tab(e):
         tk = lc.table(e, at) if isinstance(e, (ast.Name, ast.Attribute)) else None
-        return bool(tk) and {k for k, _ in tk} == {kind}
+        return bool(tk) and {k for k, _, _ in tk} == {kind}
     if is_tab(t):
         return True
     if isinstance(t, ast.Compare) and len(t.ops) == 1 and is_tab(t.left) and \
@@ -286,9 +320,17 @@ def _check_loop_nodrop(lc, out, loop, stmt, label):
     delegated = []
     for inner in lc.inner_loops(stmt):
         ih = g.nodes_of(inner)[0]
-        if astx.names(inner.iter) & lc.loop_vars(loop, inner):
+        if not any(lc.set_val_calls(n) for n in g.body_nodes(inner)):
+            continue
+        items = _iter_exprs(lc, inner.iter, ih)
+        keyvars = lc.loop_vars(loop, inner)
+        if items and all(astx.names(e) & keyvars for _, e, _ in items):
             sinks.add(ih)
             delegated.append(inner)
+        else:
+            out.unsure(fn, inner, f'nested loop stores values but its iterable {astx.src(inner.iter)} is not '
+                       'derived from the loop key')
+            sinks.add(ih)
     entry = [m for m, lab in g.succ[hdr] if lab == 'true']
     w = g.path(entry, [hdr], avoid=sinks, labels=cfgm.noexc)
     if w is not None:
@@ -542,3 +584,800 @@ def order(repo, out):
         out.unsure(fn, lo.stmt, 'inputs loop and outputs loop are on disjoint paths')
     else:
         out.ok(fn, lo.stmt, 'inputs loop precedes outputs loop on every path; no path leads back')
+
+
+# =========================================================================== set_val sites
+class Fetch:
+    """One way the value stored at a set_val site is obtained from a table: T[idx] or T[idx]['val']."""
+
+    def __init__(self, kinds, idx, form, stmt, guard):
+        self.kinds, self.idx, self.form, self.stmt, self.guard = kinds, idx, form, stmt, guard
+
+
+class Site:
+    def __init__(self, lc, loop, node, call):
+        self.lc, self.loop, self.node, self.call = lc, loop, node, call
+        self.name = astx.arg(call, 0, 'name')
+        self.val = astx.arg(call, 1, 'val')
+        self.scatter = None
+        self.problem = None      # (status, why, key)
+        self.fetches = []
+        self._analyse()
+
+    def _resolve_temp(self, e, at, depth=0):
+        """Follow a local temporary `t = <expr>` (single reaching definition) that is not a table fetch."""
+        if isinstance(e, ast.Name) and depth < 3:
+            v = self.lc.rd.value(at, e.id)
+            if isinstance(v, ast.Call) and astx.callee_attr(v) == 'scatter_dist_to_local':
+                d = next(iter(self.lc.rd.defs(at, e.id)))
+                return v, d
+        return e, at
+
+    def _fetch_of(self, e, stmt, at):
+        """Fetch for expression e = T[idx] / T[idx]['val'] or None."""
+        form = 'plain'
+        if isinstance(e, ast.Subscript) and astx.const_str(e.slice) == 'val':
+            form, e = 'val', e.value
+        if isinstance(e, ast.Subscript) and isinstance(e.slice, ast.Name):
+            tk = self.lc.table(e.value, at)
+            if tk and all(v == 'keys' for _, _, v in tk):
+                tk = {(k, m) for k, m, _ in tk}
+                guard = None
+                for a in astx.ancestors(stmt):
+                    if a is self.loop.stmt:
+                        break
+                    if isinstance(a, ast.If):
+                        p = self.lc.dict_polarity(a.test)
+                        if p is not None:
+                            guard = p if astx.in_body(stmt, a, 'body') else (not p)
+                            break
+                return Fetch(tk, e.slice.id, form, stmt, guard)
+        return None
+
+    def _analyse(self):
+        lc, call = self.lc, self.call
+        if self.name is None or self.val is None:
+            self.problem = ('unsure', 'set_val arguments not recognised', None)
+            return
+        v, at = self._resolve_temp(self.val, self.node)
+        if isinstance(v, ast.Call) and astx.callee_attr(v) == 'scatter_dist_to_local':
+            self.scatter = (v, at)
+            if not v.args:
+                self.problem = ('unsure', 'scatter_dist_to_local arguments not recognised', None)
+                return
+            v = v.args[0]
+        if isinstance(v, ast.Name):
+            ds = lc.rd.defs(at, v.id)
+            if not ds:
+                self.problem = ('unsure', f'no definition of {v.id} reaches set_val', None)
+                return
+            for d in ds:
+                f = None
+                if d.kind == 'stmt' and isinstance(d.ast, ast.Assign) and len(d.ast.targets) == 1 and \
+                        astx.path(d.ast.targets[0]) == v.id:
+                    f = self._fetch_of(d.ast.value, d.ast, d)
+                if f is None:
+                    if d.kind == 'iter' and v.id in lc.loop_vars(self.loop):
+                        self.problem = ('bad', f'the loop name {v.id} is passed as the value of set_val '
+                                        '(arguments swapped)', 'set-val-args')
+                    else:
+                        self.problem = ('unsure', f'value {v.id} is not a plain table entry at '
+                                        f'line {d.lineno}: {d.text()[:60]}', None)
+                    return
+                self.fetches.append(f)
+        else:
+            f = self._fetch_of(v, astx.stmt_of(call), at)
+            if f is None:
+                self.problem = ('unsure', f'value {astx.src(v)} is not a plain table entry', None)
+                return
+            self.fetches.append(f)
+
+    def name_var(self):
+        return self.name.id if isinstance(self.name, ast.Name) else None
+
+
+def sites_of(lc, loop):
+    out = []
+    for n in lc.set_val_nodes(loop):
+        for c in lc.set_val_calls(n):
+            out.append(Site(lc, loop, n, c))
+    return out
+
+
+# =========================================================================== C19.taint
+@rule('C19.taint', floor=4)
+def taint(repo, out):
+    """set_val receives the table entry of the loop key unchanged: right table, right form, no units=/indices=."""
+    lc = LC(repo)
+    fn = lc.fn
+    for loop in lc.loops:
+        for s in sites_of(lc, loop):
+            st = astx.stmt_of(s.call)
+            tag = f'{loop.kind}'
+            if s.problem:
+                kind, why, key = s.problem
+                if kind == 'bad':
+                    out.bad(fn, st, why, key=f'{key}-{tag}')
+                else:
+                    out.unsure(fn, st, why)
+                continue
+            c = s.call
+            extra = [k for k in c.keywords if k.arg not in ('name', 'val')]
+            verdict = None
+            if len(c.args) > 2:
+                extra = extra + [None]
+            for k in extra:
+                if k is None or k.arg is None:
+                    verdict = ('unsure', 'extra positional/starred arguments to set_val', None)
+                elif k.arg in ('units', 'indices') and isinstance(k.value, ast.Constant) and k.value.value is None:
+                    continue
+                elif k.arg in ('units', 'indices') and isinstance(k.value, ast.Constant):
+                    verdict = ('bad', f'set_val is given the literal {k.arg}={astx.src(k.value)}: the recorded value '
+                               f'is already in model units / full shape, so it is {"converted" if k.arg == "units" else "stored into a slice"} '
+                               'for every variable alike', f'set-val-{k.arg}')
+                else:
+                    verdict = ('unsure', f'set_val is given {k.arg}=', None)
+                break
+            nv = s.name_var()
+            if verdict is None and (nv is None or nv not in lc.loop_vars(loop, st)):
+                verdict = ('unsure', f'name argument {astx.src(s.name)} is not a loop variable', None)
+            if verdict is None:
+                for f in s.fetches:
+                    kinds = {k for k, _ in f.kinds}
+                    modes = {m for _, m in f.kinds}
+                    if kinds != {loop.kind}:
+                        verdict = ('bad', f'value stored in the {loop.kind} loop is read from the case '
+                                   f'{"/".join(sorted(kinds))} table ({astx.src(f.stmt)})', 'value-wrong-table')
+                        break
+                    if f.idx != loop.var and f.idx != nv:
+                        verdict = ('unsure', f'table indexed by {f.idx}, which is neither the loop key nor the stored name',
+                                   None)
+                        break
+                    # form vs mode: dict tables hold metadata dicts (value under 'val'), Case tables hold values
+                    if f.guard is True:
+                        want = 'val'
+                    elif f.guard is False:
+                        want = 'plain'
+                    elif modes == {'case'}:
+                        want = 'plain'
+                    elif modes == {'dict'}:
+                        want = 'val'
+                    else:
+                        verdict = ('unsure', f'{astx.src(f.stmt)} is not under a dict/Case mode test', None)
+                        break
+                    if f.form != want:
+                        verdict = ('bad', f'{astx.src(f.stmt)} is executed in {"dict" if want == "val" else "Case"} mode '
+                                   f"but reads the entry {'without' if want == 'val' else 'with'} ['val']: the "
+                                   'metadata dict / a component of the value is stored instead of the value',
+                                   'value-form')
+                        break
+                    if f.guard is not None and ((f.guard and 'dict' not in modes) or (not f.guard and 'case' not in modes)):
+                        verdict = ('unsure', f'{astx.src(f.stmt)}: table cannot be in the tested mode', None)
+                        break
+            if verdict is None and s.scatter is not None:
+                verdict = _check_scatter(lc, loop, s)
+            if verdict is None:
+                forms = sorted({f.form for f in s.fetches})
+                out.ok(fn, st, f'value is {loop.kind}[{loop.var}] ({"/".join(forms)})'
+                       f'{" through scatter_dist_to_local" if s.scatter else ""}, stored under {nv}, no units/indices')
+            elif verdict[0] == 'bad':
+                out.bad(fn, st, verdict[1], key=f'{verdict[2]}-{tag}')
+            else:
+                out.unsure(fn, st, verdict[1])
+
+
+def _check_scatter(lc, loop, s):
+    call, at = s.scatter
+    if len(call.args) != 3 or call.keywords:
+        return ('unsure', 'scatter_dist_to_local call shape not recognised', None)
+    comm, sizes = call.args[1], call.args[2]
+    if not (isinstance(comm, ast.Attribute) and comm.attr == 'comm' and lc.is_model(comm.value)):
+        return ('unsure', f'communicator {astx.src(comm)} is not model.comm', None)
+    if isinstance(sizes, ast.Name):
+        sv = lc.rd.value(at, sizes.id)
+        if sv is None:
+            return ('unsure', f'sizes {sizes.id} has no unique definition', None)
+        sizes = sv
+    # model._var_sizes[io][:, abs2idx[name]]
+    ok_shape = isinstance(sizes, ast.Subscript) and isinstance(sizes.value, ast.Subscript) and \
+        isinstance(sizes.value.value, ast.Attribute) and sizes.value.value.attr == '_var_sizes' and \
+        lc.is_model(sizes.value.value.value) and isinstance(sizes.slice, ast.Tuple) and len(sizes.slice.elts) == 2
+    if not ok_shape:
+        return ('unsure', f'sizes expression {astx.src(sizes)} not recognised', None)
+    io = astx.const_str(sizes.value.slice)
+    col = sizes.slice.elts[1]
+    if io != loop.io:
+        return ('bad', f"distributed {loop.io} value is scattered with the sizes of _var_sizes[{io!r}] "
+                f"(column index is taken from the other io kind's table)", 'scatter-sizes')
+    if not (isinstance(col, ast.Subscript) and isinstance(col.slice, ast.Name)):
+        return ('unsure', f'size column {astx.src(col)} not recognised', None)
+    if col.slice.id != s.name_var():
+        return ('bad', f'sizes of variable {col.slice.id} are used to scatter the value stored under '
+                f'{s.name_var()}', 'scatter-sizes')
+    return None
+
+
+# =========================================================================== key space of the case tables
+# Kinds of key under which a variable THAT EXISTS IN THE MODEL can appear when a table is iterated:
+#   inputs : 'abs'      absolute input name (and not also its promoted name)
+#            'prom'     promoted input name (and not an absolute name)
+#   outputs: 'abs_out'  absolute output name (not its promoted name)
+#            'prom_out' promoted output name
+#            'autoivc'  promoted *input* name under which the recorder stores an _auto_ivc output
+def case_keyspace(repo):
+    """{'inputs'|'outputs': {view: {kind: ast node that creates it}}} from Case.__init__ / PromAbsDict.__init__."""
+    ci = repo.func(CASE, 'Case.__init__')
+    with_in = {}
+    for st in astx.walk_stmts(ci.node.body):
+        if isinstance(st, ast.Assign) and len(st.targets) == 1 and \
+                astx.path(st.targets[0]) in ('self.inputs', 'self.outputs') and isinstance(st.value, ast.Call):
+            if astx.call_name(st.value) != 'PromAbsDict':
+                raise AnalysisError(f'{ci.ident}: {astx.src(st)} does not build a PromAbsDict')
+            c = st.value
+            k = astx.path(st.targets[0]).split('.')[1]
+            io = k[:-1]
+            p2a, a2p = astx.arg(c, 1, 'prom2abs'), astx.arg(c, 2, 'abs2prom')
+            if astx.path(p2a) != f"prom2abs[{io!r}]" or astx.path(a2p) != f"abs2prom[{io!r}]":
+                raise AnalysisError(f'{ci.ident}: name maps given to the {k} PromAbsDict not recognised')
+            with_in[k] = astx.kwarg(c, 'in_prom2abs') is not None
+    if set(with_in) != {'inputs', 'outputs'}:
+        raise AnalysisError(f'{ci.ident}: construction of self.inputs/self.outputs not found')
+    pi = repo.func(CASE, 'PromAbsDict.__init__')
+    argn = [a.arg for a in pi.node.args.args]
+    if argn[:4] != ['self', 'values', 'prom2abs', 'abs2prom'] or 'in_prom2abs' not in argn:
+        raise AnalysisError(f'{pi.ident}: signature changed')
+    space = {'inputs': {'keys': {}, 'absolute_names': {}}, 'outputs': {'keys': {}, 'absolute_names': {}}}
+    n_calls = 0
+    for c in astx.calls(pi.node):
+        if not (astx.callee_attr(c) == '__setitem__' and isinstance(astx.receiver(c), ast.Call) and
+                astx.call_name(astx.receiver(c)) == 'super' and len(c.args) == 2):
+            continue
+        loopst = astx.enclosing(c, (ast.For,))
+        if loopst is None:
+            continue
+        tg = loopst.target
+        kv = tg.elts[0].id if isinstance(tg, ast.Tuple) and isinstance(tg.elts[0], ast.Name) else None
+        if kv is None:
+            raise AnalysisError(f'{pi.ident}: key loop at line {loopst.lineno} not recognised')
+        n_calls += 1
+        keyexpr = c.args[0]
+        # branch context: nearest enclosing membership test in whose body/orelse chain we are
+        member = None          # 'abs2prom' | 'prom2abs' | 'else' | 'deriv'
+        applies = {'inputs', 'outputs'}
+        node = c
+        for a in astx.ancestors(c):
+            if a is loopst:
+                break
+            if isinstance(a, ast.If):
+                t = a.test
+                inb = astx.in_body(astx.stmt_of(c), a, 'body')
+                if isinstance(t, ast.Compare) and len(t.ops) == 1 and isinstance(t.ops[0], ast.In) and \
+                        isinstance(t.left, ast.Name) and t.left.id == kv and \
+                        isinstance(t.comparators[0], ast.Name) and t.comparators[0].id in ('abs2prom', 'prom2abs'):
+                    if inb and member is None:
+                        member = t.comparators[0].id
+                elif isinstance(t, ast.Compare) and len(t.ops) == 1 and astx.path(t.left) == 'in_prom2abs' and \
+                        isinstance(t.comparators[0], ast.Constant) and t.comparators[0].value is None and \
+                        isinstance(t.ops[0], (ast.Is, ast.IsNot)):
+                    none_side = inb == isinstance(t.ops[0], ast.Is)
+                    applies &= {k for k, w in with_in.items() if w != none_side}
+                elif inb and member is None:
+                    member = 'deriv'
+        if member is None:
+            member = 'else'
+        if isinstance(keyexpr, ast.Subscript) and astx.path(keyexpr.value) == 'abs2prom' and \
+                isinstance(keyexpr.slice, ast.Name) and keyexpr.slice.id == kv:
+            stored = 'prom'
+        elif isinstance(keyexpr, ast.Name) and keyexpr.id == kv:
+            stored = 'raw'
+        else:
+            stored = 'other'
+        for tab in applies:
+            if tab == 'inputs':
+                # recorded inputs are keyed by absolute name: only the `key in abs2prom` branch is taken
+                if member == 'abs2prom':
+                    kind = {'prom': 'prom', 'raw': 'abs'}.get(stored)
+                    if kind is None:
+                        raise AnalysisError(f'{pi.ident}: key expression {astx.src(keyexpr)} not recognised')
+                    space[tab]['keys'].setdefault(kind, c)
+            else:
+                if member == 'abs2prom':
+                    kind = {'prom': 'prom_out', 'raw': 'abs_out'}.get(stored)
+                    if kind is None:
+                        raise AnalysisError(f'{pi.ident}: key expression {astx.src(keyexpr)} not recognised')
+                    space[tab]['keys'].setdefault(kind, c)
+                elif member == 'else' and stored == 'raw':
+                    space[tab]['keys'].setdefault('autoivc', c)
+    if n_calls < 6:
+        raise AnalysisError(f'{pi.ident}: only {n_calls} super().__setitem__ calls recognised')
+    # absolute_names() yields the raw recorded keys
+    an = repo.func(CASE, 'PromAbsDict.absolute_names')
+    ys = [n for n in astx.walk(an.node) if isinstance(n, ast.Yield)]
+    loops = [s for s in astx.walk_stmts(an.node.body) if isinstance(s, ast.For)]
+    if len(loops) == 1 and astx.path(loops[0].iter) == 'self._keys' and isinstance(loops[0].target, ast.Name) and \
+            any(isinstance(y.value, ast.Name) and y.value.id == loops[0].target.id for y in ys):
+        space['inputs']['absolute_names'] = {'abs': an.node}
+        space['outputs']['absolute_names'] = {'abs_out': an.node, 'autoivc': an.node}
+    else:
+        space['inputs']['absolute_names'] = space['outputs']['absolute_names'] = None
+    return space
+
+
+# three-valued evaluation of the name gates for one kind of key
+_IS_ABS = {'abs': ('input',), 'abs_out': ('output',)}
+_IS_PROM = {'prom': ('input',), 'prom_out': ('output',), 'autoivc': ('input',)}
+
+
+def _gate_atom(lc, c, kind, var):
+    """Value of resolver.is_abs/is_prom(var[, iotype]) for a key of `kind`; None if not such a call."""
+    if not (isinstance(c, ast.Call) and astx.callee_attr(c) in ('is_abs', 'is_prom') and
+            lc.is_resolver(astx.receiver(c))):
+        return None
+    a0 = astx.arg(c, 0, 'absname' if astx.callee_attr(c) == 'is_abs' else 'promname')
+    if not (isinstance(a0, ast.Name) and a0.id == var):
+        return None
+    io = astx.arg(c, 1, 'iotype')
+    if io is None or (isinstance(io, ast.Constant) and io.value is None):
+        iov = None
+    elif astx.const_str(io) in ('input', 'output'):
+        iov = astx.const_str(io)
+    else:
+        return None
+    tab = _IS_ABS if astx.callee_attr(c) == 'is_abs' else _IS_PROM
+    ios = tab.get(kind, ())
+    return bool(ios) and (iov is None or iov in ios)
+
+
+def gate_eval(lc, t, kind, var):
+    """True/False/None(unknown) of test t for a key of `kind` bound to `var`."""
+    if isinstance(t, ast.UnaryOp) and isinstance(t.op, ast.Not):
+        v = gate_eval(lc, t.operand, kind, var)
+        return None if v is None else not v
+    if isinstance(t, ast.BoolOp):
+        vals = [gate_eval(lc, v, kind, var) for v in t.values]
+        if isinstance(t.op, ast.And):
+            if any(v is False for v in vals):
+                return False
+            return True if all(v is True for v in vals) else None
+        if any(v is True for v in vals):
+            return True
+        return False if all(v is False for v in vals) else None
+    return _gate_atom(lc, t, kind, var)
+
+
+def _looks_like_name_gate(lc, t, var):
+    """An undecided test that classifies the loop key (is_*/membership) rather than the variable's data."""
+    for e in astx.walk(t):
+        if isinstance(e, ast.Call) and lc.is_resolver(astx.receiver(e)) and \
+                (astx.callee_attr(e) or '').startswith('is_') and var in astx.names(e):
+            return True
+        if isinstance(e, ast.Compare) and len(e.ops) == 1 and isinstance(e.ops[0], (ast.In, ast.NotIn)) and \
+                isinstance(e.left, ast.Name) and e.left.id == var:
+            return True
+    return False
+
+
+def simulate(lc, loop, kind):
+    """Nodes of the loop body reachable for a present variable whose key is of `kind` (normal edges)."""
+    g = lc.g
+    body = set(g.body_nodes(loop.stmt))
+    start = [m for m, lab in g.succ[loop.hdr] if lab == 'true']
+    seen = set(start)
+    dq = deque(start)
+    unknown = []
+    while dq:
+        n = dq.popleft()
+        val = None
+        if n.kind == 'test' and isinstance(n.ast, ast.If):
+            val = gate_eval(lc, n.ast.test, kind, loop.var)
+            if val is None and _looks_like_name_gate(lc, n.ast.test, loop.var):
+                unknown.append(n)
+        for m, lab in g.succ[n]:
+            if lab == 'exc' or m not in body:
+                continue
+            if val is not None and lab in ('true', 'false') and (lab == 'true') != val:
+                continue
+            if m not in seen:
+                seen.add(m)
+                dq.append(m)
+    return seen, unknown
+
+
+_KIND_TEXT = {'abs': 'absolute input names', 'prom': 'promoted input names',
+              'abs_out': 'absolute output names', 'prom_out': 'promoted output names',
+              'autoivc': 'promoted input names that stand for _auto_ivc outputs'}
+
+
+def loop_kinds(lc, loop, space):
+    ks = space[loop.kind][loop.view]
+    if ks is None:
+        raise AnalysisError('PromAbsDict.absolute_names not recognised')
+    return ks
+
+
+# =========================================================================== C19.keyspace
+@rule('C19.keyspace', floor=3)
+def keyspace(repo, out):
+    """Every kind of key that iterating a recorded table yields for an existing variable reaches set_val."""
+    lc = LC(repo)
+    fn = lc.fn
+    space = case_keyspace(repo)
+    for loop in lc.loops:
+        if 'case' not in loop.modes:
+            raise AnalysisError(f'{fn.ident}: the {loop.kind} loop never iterates the Case table')
+        kinds = loop_kinds(lc, loop, space)
+        if not kinds:
+            raise AnalysisError(f'no key kinds derived for case.{loop.kind}')
+        setn = set(lc.set_val_nodes(loop))
+        warn = set(lc.warn_nodes(loop))
+        for kind in sorted(kinds):
+            seen, unknown = simulate(lc, loop, kind)
+            origin = kinds[kind]
+            how = (f'PromAbsDict stores such keys at case.py line {getattr(origin, "lineno", "?")}: '
+                   f'{astx.src(origin)[:70]}')
+            if unknown:
+                out.unsure(fn, unknown[0].ast, f'unrecognised test on the loop key for {_KIND_TEXT[kind]}')
+            elif seen & setn:
+                out.ok(fn, loop.stmt, f'{_KIND_TEXT[kind]} in case.{loop.kind} reach set_val')
+            else:
+                end = 'issue_warning("... not found in the model")' if seen & warn else 'no set_val'
+                out.bad(fn, loop.stmt, f'case.{loop.kind} iterated as `{astx.src(loop.stmt.iter)}` yields '
+                        f'{_KIND_TEXT[kind]} ({how}), but for such a key the name gate of the loop only leads to '
+                        f'{end}: a recorded variable that exists in the model is not restored',
+                        key=f'{loop.kind}-keyspace-{kind}')
+
+
+# =========================================================================== C19.endpoint
+def _iter_exprs(lc, e, at, depth=0, seen=None):
+    """Element-producing expressions of an iterable (through local temporaries and tuple/list literals).
+
+    seen: if given, only definitions at CFG nodes in this set are considered (path-sensitive per key kind).
+    """
+    if depth > 4:
+        return None
+    if isinstance(e, ast.Name):
+        ds = lc.rd.defs(at, e.id)
+        if seen is not None:
+            ds = {d for d in ds if d in seen}
+        if not ds:
+            return None
+        out = []
+        for d in ds:
+            if d.kind == 'stmt' and isinstance(d.ast, ast.Assign) and len(d.ast.targets) == 1 and \
+                    astx.path(d.ast.targets[0]) == e.id:
+                r = _iter_exprs(lc, d.ast.value, d, depth + 1, seen)
+                if r is None:
+                    return None
+                out += r
+            else:
+                return None
+        return out
+    if isinstance(e, (ast.Tuple, ast.List)):
+        return [('elt', x, at) for x in e.elts]
+    return [('iter', e, at)]
+
+
+def _endpoint_of_name(lc, loop, site, kind, seen=None):
+    """Frame through which the site stores, for a key of `kind`: 'key' | 'out' | 'in' | 'same' | None."""
+    nv = site.name_var()
+    if nv == loop.var:
+        return 'key', None
+    # nv bound by a nested For
+    st = astx.stmt_of(site.call)
+    inner = None
+    for a in astx.ancestors(st):
+        if a is loop.stmt:
+            break
+        if isinstance(a, ast.For) and isinstance(a.target, ast.Name) and a.target.id == nv:
+            inner = a
+            break
+    if inner is None:
+        return None, f'name {nv} is not bound by a loop over names derived from the key'
+    ih = lc.g.nodes_of(inner)[0]
+    items = _iter_exprs(lc, inner.iter, ih, seen=seen)
+    if not items:
+        return None, f'iterable {astx.src(inner.iter)} not recognised'
+    frames = set()
+    for how, e, at in items:
+        if how == 'elt' and isinstance(e, ast.Name) and e.id == loop.var:
+            frames.add('key')
+            continue
+        if not isinstance(e, ast.Call):
+            return None, f'element source {astx.src(e)} not recognised'
+        ca = astx.callee_attr(e)
+        a0 = e.args[0] if e.args else None
+        on_key = isinstance(a0, ast.Name) and a0.id == loop.var
+        if how == 'elt' and ca in ('source', 'get_source') and on_key and \
+                (lc.is_resolver(astx.receiver(e)) or lc.is_model(astx.receiver(e))):
+            frames.add('out')
+            continue
+        if how == 'iter' and ca == 'absnames' and lc.is_resolver(astx.receiver(e)) and on_key:
+            io = astx.arg(e, 1, 'iotype')
+            if io is None or (isinstance(io, ast.Constant) and io.value is None):
+                # get_prom_iotype: promoted output first, else promoted input; an absolute name is itself
+                frames.add({'prom_out': 'out', 'abs_out': 'out', 'autoivc': 'in', 'prom': 'in', 'abs': 'same'}[kind])
+            elif astx.const_str(io) == 'output':
+                frames.add('out')
+            elif astx.const_str(io) == 'input':
+                frames.add('same' if kind == 'abs' else 'in')
+            else:
+                return None, f'iotype {astx.src(io)} not recognised'
+            continue
+        return None, f'element source {astx.src(e)} not recognised'
+    if len(frames) != 1:
+        return None, f'mixed end points {sorted(frames)}'
+    return frames.pop(), inner
+
+
+@rule('C19.endpoint', floor=2)
+def endpoint(repo, out):
+    """A recorded value is stored through an end point that has the units/shape frame it was recorded in."""
+    lc = LC(repo)
+    fn = lc.fn
+    space = case_keyspace(repo)
+    for loop in lc.loops:
+        kinds = loop_kinds(lc, loop, space)
+        sites = sites_of(lc, loop)
+        for kind in sorted(kinds):
+            seen, unknown = simulate(lc, loop, kind)
+            reach = [s for s in sites if s.node in seen]
+            if not reach:
+                continue       # nothing stored for this kind: C19.keyspace reports it
+            verdict = None
+            for s in reach:
+                st = astx.stmt_of(s.call)
+                if s.problem or not s.fetches:
+                    verdict = ('unsure', st, 'value of set_val not recognised (see C19.taint)')
+                    break
+                frame, info = _endpoint_of_name(lc, loop, s, kind, seen)
+                if frame is None:
+                    verdict = ('unsure', st, info)
+                    break
+                idx = {f.idx for f in s.fetches if f.guard is not True} or {f.idx for f in s.fetches}
+                if loop.kind == 'inputs':
+                    # the recorded input value is in the units / shape (after src_indices) of ONE absolute input
+                    if idx == {s.name_var()} or frame == 'same':
+                        continue
+                    if frame == 'in':
+                        verdict = ('bad', st, f'the value read from case.inputs[{"/".join(sorted(idx))}] (one '
+                                   f'input\'s units) is stored through every absolute input of the promoted name '
+                                   f'({astx.src(info.iter)}): inputs promoted together may have different units '
+                                   'and src_indices', f'inputs-{kind}-fanned-out')
+                        break
+                    verdict = ('unsure', st, f'input value indexed by {sorted(idx)} stored under {s.name_var()}')
+                    break
+                # outputs: the value is in the units and full shape of the source output
+                if frame in ('key', 'out'):
+                    continue
+                if frame == 'in':
+                    verdict = ('bad', info, f'for {_KIND_TEXT[kind]} `{astx.src(info.iter)}` resolves to absolute '
+                               f'INPUT names, so the recorded source value (source units, full source shape) is '
+                               f'stored with set_val through inputs: it is re-interpreted in each input\'s units '
+                               'and src_indices (wrong value when an input declares other units than its '
+                               'auto_ivc source, shape error with src_indices)',
+                               f'outputs-{kind}-through-input-endpoint')
+                    break
+                verdict = ('unsure', st, f'end point frame {frame} not expected in the outputs loop')
+                break
+            if verdict is None:
+                out.ok(fn, loop.stmt, f'{_KIND_TEXT[kind]}: {len(reach)} set_val site(s) store through an end point '
+                       'in the recorded frame')
+            elif verdict[0] == 'bad':
+                out.bad(fn, verdict[1], verdict[2], key=verdict[3])
+            else:
+                out.unsure(fn, verdict[1], verdict[2])
+
+
+# =========================================================================== self-test
+_IN_BLOCK = '''        if inputs:
+            for abs_name in inputs:
+                if set_later(abs_name):
+                    continue
+
+                if resolver.is_abs(abs_name, 'input'):
+                    if case_is_dict:
+                        val = inputs[abs_name]['val']
+                    else:
+                        val = case.inputs[abs_name]
+
+                    if model.comm.size > 1 and resolver.flags(abs_name, 'input') & DISTRIBUTED:
+                        sizes = model._var_sizes['input'][:, abs2idx[abs_name]]
+                        model.set_val(abs_name, scatter_dist_to_local(val, model.comm, sizes))
+                    else:
+                        model.set_val(abs_name, val)
+                else:
+                    issue_warning(f"{model.msginfo}: Input variable, '{abs_name}', recorded "
+                                  "in the case is not found in the model.")
+'''
+_OUT_BLOCK = '''        if outputs:
+            for name in outputs:
+                if set_later(name):
+                    continue
+
+                if resolver.is_prom(name):
+                    if case_is_dict:
+                        val = outputs[name]['val']
+                    else:
+                        val = outputs[name]
+
+                    for abs_name in resolver.absnames(name):
+                        if set_later(abs_name):
+                            continue
+
+                        if model.comm.size > 1 and resolver.flags(abs_name) & DISTRIBUTED:
+                            sizes = model._var_sizes['output'][:, abs2idx[abs_name]]
+                            model.set_val(abs_name, scatter_dist_to_local(val, model.comm, sizes))
+                        else:
+                            model.set_val(abs_name, val)
+                else:
+                    issue_warning(f"{model.msginfo}: Output variable, '{name}', recorded "
+                                  "in the case is not found in the model.")
+'''
+# the same blocks as they look after the repair of the two findings (iterate absolute_names() in Case
+# mode; resolve an output key to outputs, an auto_ivc key to its source).  Self-test items are registered
+# for both shapes; the ones that do not match the current tree are counted as inapplicable.
+_IN_HDR = '        if inputs:\n            for abs_name in inputs:'
+_IN_HDR_FIXED = '        if inputs:\n            for abs_name in (inputs if case_is_dict else inputs.absolute_names()):'
+_FAN = '                    for abs_name in resolver.absnames(name):\n'
+_FAN_FIXED = """                    if resolver.is_prom(name, 'output'):
+                        abs_names = resolver.absnames(name, 'output')
+                    else:
+                        # promoted input name that stands for an _auto_ivc output
+                        abs_names = (resolver.source(name),)
+
+                    for abs_name in abs_names:
+"""
+_IN_BLOCK_FIXED = _IN_BLOCK.replace(_IN_HDR, _IN_HDR_FIXED)
+_OUT_BLOCK_FIXED = _OUT_BLOCK.replace(_FAN, _FAN_FIXED)
+assert _IN_BLOCK_FIXED != _IN_BLOCK and _OUT_BLOCK_FIXED != _OUT_BLOCK
+_OUT_FLIPPED_TMPL = '''        if outputs:
+            for name in outputs:
+                if set_later(name):
+                    continue
+
+                if not resolver.is_prom(name):
+                    issue_warning(f"{model.msginfo}: Output variable, '{name}', recorded "
+                                  "in the case is not found in the model.")
+                else:
+                    if not case_is_dict:
+                        val = outputs[name]
+                    else:
+                        val = outputs[name]['val']
+
+@FAN@                        if set_later(abs_name):
+                            continue
+
+                        if model.comm.size > 1 and resolver.flags(abs_name) & DISTRIBUTED:
+                            sizes = model._var_sizes['output'][:, abs2idx[abs_name]]
+                            local = scatter_dist_to_local(val, model.comm, sizes)
+                            model.set_val(abs_name, local)
+                        else:
+                            model.set_val(name=abs_name, val=val)
+'''
+_FANOUT_IN = ("                    for aname in resolver.absnames(abs_name, 'input'):\n"
+              "                        model.set_val(aname, val)\n")
+_IN_STORE = ("                    if model.comm.size > 1 and resolver.flags(abs_name, 'input') & DISTRIBUTED:\n"
+             "                        sizes = model._var_sizes['input'][:, abs2idx[abs_name]]\n"
+             "                        model.set_val(abs_name, scatter_dist_to_local(val, model.comm, sizes))\n"
+             "                    else:\n"
+             "                        model.set_val(abs_name, val)\n")
+
+
+def _shape_items():
+    """Self-test items that quote whole blocks, for the current and for the repaired shape."""
+    items = []
+    for tag, inb, outb, hdr, fan in (('', _IN_BLOCK, _OUT_BLOCK, _IN_HDR, _FAN),
+                                     ('@fixed', _IN_BLOCK_FIXED, _OUT_BLOCK_FIXED, _IN_HDR_FIXED, _FAN_FIXED)):
+        items += [
+            Mutant('order-outputs-first' + tag, PRB, inb + '\n' + outb, outb + '\n' + inb, 'C19.order'),
+            Mutant('nodrop-inputs-guard-flipped' + tag, PRB, hdr, hdr.replace('if inputs:', 'if not inputs:'), 'C19.nodrop'),
+            Mutant('nodrop-return-when-no-inputs' + tag, PRB, hdr, '        if not inputs:\n            return\n' + hdr,
+                   ['C19.nodrop', 'C19.deferred']),
+            Mutant('endpoint-inputs-fanned-out' + tag, PRB, inb,
+                   inb.replace("if resolver.is_abs(abs_name, 'input'):",
+                               "if resolver.is_abs(abs_name, 'input') or resolver.is_prom(abs_name, 'input'):")
+                   .replace(hdr, _IN_HDR).replace(_IN_STORE, _FANOUT_IN), 'C19.endpoint'),
+            Twin('twin-rename-input-key' + tag, PRB, inb, inb.replace('abs_name', 'iname')),
+            Twin('twin-flip-gate-temp-kwargs' + tag, PRB, outb, _OUT_FLIPPED_TMPL.replace('@FAN@', fan)),
+            Twin('twin-is-not-none' + tag, PRB, hdr, hdr.replace('if inputs:', 'if inputs is not None:')),
+        ]
+    return items
+
+
+_IN_SET = '''                    else:
+                        model.set_val(abs_name, val)
+                else:
+                    issue_warning(f"{model.msginfo}: Input variable'''
+_OUT_SET = '''                        else:
+                            model.set_val(abs_name, val)
+                else:
+                    issue_warning(f"{model.msginfo}: Output variable'''
+_FINAL = '''        for sys_name in sorted(system_overrides.keys()):
+            system_overrides[sys_name].load_case(case)
+'''
+
+selftest(
+    'C19',
+    # ---- nodrop
+    Mutant('nodrop-dist-on-one-proc', PRB, _IN_SET,
+           _IN_SET.replace('else:\n                        model.set_val',
+                           "elif not resolver.flags(abs_name, 'input') & DISTRIBUTED:\n                        model.set_val", 1),
+           'C19.nodrop'),
+    Mutant('nodrop-skip-autoivc', PRB, "                if resolver.is_prom(name):\n",
+           "                if name.startswith('_auto_ivc.'):\n                    continue\n\n"
+           "                if resolver.is_prom(name):\n", 'C19.nodrop'),
+    Mutant('nodrop-break-on-unknown-output', PRB,
+           '''                    issue_warning(f"{model.msginfo}: Output variable, '{name}', recorded "
+                                  "in the case is not found in the model.")
+''', '''                    issue_warning(f"{model.msginfo}: Output variable, '{name}', recorded "
+                                  "in the case is not found in the model.")
+                    break
+''', 'C19.nodrop'),
+    Mutant('nodrop-fanout-first-only', PRB, _OUT_SET,
+           _OUT_SET.replace('model.set_val(abs_name, val)\n', 'model.set_val(abs_name, val)\n                        break\n', 1),
+           'C19.nodrop'),
+    Mutant('nodrop-set-only-in-case-mode', PRB, _OUT_SET,
+           _OUT_SET.replace('else:\n                            model.set_val', 'elif not case_is_dict:\n                            model.set_val', 1),
+           'C19.nodrop'),
+    # ---- deferred
+    Mutant('deferred-prefix-without-dot', PRB, "if var_name.startswith(pathname + '.'):",
+           'if var_name.startswith(pathname):', 'C19.deferred'),
+    Mutant('deferred-prefix-swapped', PRB, "if var_name.startswith(pathname + '.'):",
+           "if pathname.startswith(var_name + '.'):", 'C19.deferred'),
+    Mutant('deferred-key-by-name', PRB, 'system_overrides[subsys.pathname] = subsys',
+           'system_overrides[subsys.name] = subsys', 'C19.deferred'),
+    Mutant('deferred-never-called', PRB, _FINAL, '', 'C19.deferred'),
+    Mutant('deferred-wrong-case', PRB, 'system_overrides[sys_name].load_case(case)',
+           'system_overrides[sys_name].load_case(outputs)', 'C19.deferred'),
+    Mutant('deferred-return-after-outputs', PRB, '        # call the overridden load_case method on applicable subsystems',
+           '        if not outputs:\n            return\n\n        # call the overridden load_case method on applicable subsystems',
+           'C19.deferred'),
+    Mutant('deferred-only-with-outputs', PRB, _FINAL,
+           '        if outputs:\n            for sys_name in sorted(system_overrides.keys()):\n'
+           '                system_overrides[sys_name].load_case(case)\n', 'C19.deferred'),
+    Mutant('deferred-true-by-default', PRB, '                    return True\n            return False',
+           '                    return True\n            return True', 'C19.deferred'),
+    # ---- taint
+    Mutant('taint-units-literal', PRB, _IN_SET, _IN_SET.replace('set_val(abs_name, val)', "set_val(abs_name, val, units='m')"),
+           'C19.taint'),
+    Mutant('taint-indices-literal', PRB, _OUT_SET, _OUT_SET.replace('set_val(abs_name, val)', 'set_val(abs_name, val, indices=0)'),
+           'C19.taint'),
+    Mutant('taint-wrong-table', PRB, 'val = case.inputs[abs_name]', 'val = case.outputs[abs_name]', 'C19.taint'),
+    Mutant('taint-form-swapped', PRB,
+           "                    if case_is_dict:\n                        val = outputs[name]['val']\n                    else:\n                        val = outputs[name]\n",
+           "                    if not case_is_dict:\n                        val = outputs[name]['val']\n                    else:\n                        val = outputs[name]\n",
+           'C19.taint'),
+    Mutant('taint-dict-entry-stored', PRB, "val = inputs[abs_name]['val']", 'val = inputs[abs_name]', 'C19.taint'),
+    Mutant('taint-scatter-wrong-io', PRB, "sizes = model._var_sizes['input'][:, abs2idx[abs_name]]",
+           "sizes = model._var_sizes['output'][:, abs2idx[abs_name]]", 'C19.taint'),
+    Mutant('taint-scatter-wrong-var', PRB, "sizes = model._var_sizes['output'][:, abs2idx[abs_name]]",
+           "sizes = model._var_sizes['output'][:, abs2idx[name]]", 'C19.taint'),
+    Mutant('taint-args-swapped', PRB, _IN_SET, _IN_SET.replace('set_val(abs_name, val)', 'set_val(val, abs_name)'),
+           'C19.taint'),
+    # ---- keyspace
+    Mutant('keyspace-outputs-gate-is-abs', PRB, 'if resolver.is_prom(name):', 'if resolver.is_abs(name):', 'C19.keyspace'),
+    Mutant('keyspace-outputs-gate-output-only', PRB, 'if resolver.is_prom(name):', "if resolver.is_prom(name, 'output'):",
+           'C19.keyspace'),
+    Mutant('keyspace-inputs-gate-negated', PRB, "if resolver.is_abs(abs_name, 'input'):",
+           "if not resolver.is_abs(abs_name, 'input'):", 'C19.keyspace'),
+    Mutant('keyspace-inputs-gate-wrong-io', PRB, "if resolver.is_abs(abs_name, 'input'):",
+           "if resolver.is_abs(abs_name, 'output'):", 'C19.keyspace'),
+    Mutant('keyspace-outputs-keyed-abs', CASE,
+           '                    else:\n                        super().__setitem__(abs2prom[key], val)\n                elif DERIV_KEY_SEP in key:',
+           '                    else:\n                        super().__setitem__(key, val)\n                elif DERIV_KEY_SEP in key:',
+           'C19.keyspace'),
+    # ---- endpoint
+    Mutant('endpoint-absnames-input', PRB, 'for abs_name in resolver.absnames(name):',
+           "for abs_name in resolver.absnames(name, 'input'):", 'C19.endpoint'),
+    Mutant('endpoint-absnames-input@fixed', PRB, "abs_names = resolver.absnames(name, 'output')",
+           "abs_names = resolver.absnames(name, 'input')", 'C19.endpoint'),
+    # ---- the two findings of this module, as seen from the repaired shape
+    Mutant('finding-outputs-through-inputs@fixed', PRB, _FAN_FIXED, _FAN, 'C19.endpoint'),
+    Mutant('finding-inputs-keyspace@fixed', PRB, _IN_HDR_FIXED, _IN_HDR, 'C19.keyspace'),
+    *_shape_items(),
+    # ---- twins
+    Twin('twin-sorted-dict', PRB, 'for sys_name in sorted(system_overrides.keys()):', 'for sys_name in sorted(system_overrides):'),
+    Twin('twin-items', PRB, _FINAL, '        for sys_name, sub in sorted(system_overrides.items()):\n            sub.load_case(case)\n'),
+    Twin('twin-fstring-prefix', PRB, "if var_name.startswith(pathname + '.'):", "if var_name.startswith(f'{pathname}.'):"),
+    Twin('twin-keys-view', PRB, '            for name in outputs:', '            for name in outputs.keys():'),
+)
